@@ -114,3 +114,57 @@ Section FileSystem.
   Definition shared_lookup (exports : list (str * str)) (path : str) : option str :=
     find isfile (shared_candidates exports path).
 End FileSystem.
+
+(* ------------------------------------------------------------------ secure_filename with os.name as an input *)
+Definition first_field (x : N) (s : str) : str := fst (partition1 x s).     (* s.split(x)[0] *)
+Definition upper (s : str) : str := map ascii_upper s.                       (* str.upper on ASCII text *)
+Definition mem_str (s : str) (l : list str) : bool := existsb (list_eqb s) l.
+Definition is_device (f : str) : bool := mem_str (upper (first_field device_field_sep f)) windows_device_files.
+
+Definition replace_seps_of (seps : list N) (s : str) : str :=
+  fold_left (fun acc sep => replace_char sep filename_sep_replacement acc) seps s.
+
+(* nt = (os.name == "nt"): there os.sep is the backslash and os.path.altsep the slash *)
+Definition secure_core_os (nt : bool) (s : str) : str :=
+  let f := strip strip_char
+             (filter keep_char
+                (join_with [filename_joiner]
+                   (split_ws (replace_seps_of (if nt then filename_seps_nt else filename_seps) (ascii_ignore s))))) in
+  if nt && negb (is_nil f) && is_device f then device_prefix :: f else f.
+
+(* ------------------------------------------------------------------ every kind of export *)
+Inductive export :=
+| EDir (directory : str)       (* a directory: get_directory_loader *)
+| EFile (filename : str)       (* an existing file: get_file_loader *)
+| EPkg (package_path : str).   (* (package, package_path): get_package_loader *)
+
+(* what decides whether a candidate is served: os.path.isfile, or the package's resource reader *)
+Inductive ckind := KIsFile | KResource | KFixed.
+
+(* the loader of an export applied to None (exact match) or to the rest of the path *)
+Definition loader_target (e : export) (p : option str) : list (ckind * str) :=
+  match e with
+  | EDir d => map (pair KIsFile) (opt_list (dir_target d p))
+  | EFile f => [(KFixed, f)]                                   (* the argument is ignored *)
+  | EPkg pp => match p with
+               | None => []
+               | Some x => map (pair KResource) (opt_list (safe_join pp [x]))
+               end
+  end.
+
+Definition export_candidates_all (search_path : str) (e : export) (path : str) : list (ckind * str) :=
+  (if sdm_exact search_path path then loader_target e None else [])
+  ++ (let sp := if sdm_append_slash search_path then search_path ++ sdm_slash else search_path in
+      if sdm_prefix sp path then loader_target e (Some (skipn (length sp) path)) else []).
+
+Definition shared_candidates_all (exports : list (str * export)) (path : str) : list (ckind * str) :=
+  flat_map (fun ke => export_candidates_all (fst ke) (snd ke) path) exports.
+
+Section Serving.
+  (* does the candidate exist: os.path.isfile for directory exports, reader.open_resource for
+     package exports; a file export was checked when the middleware was built *)
+  Variable available : ckind -> str -> bool.
+  Definition shared_lookup_all (exports : list (str * export)) (path : str) : option (ckind * str) :=
+    find (fun c => match fst c with KFixed => true | k => available k (snd c) end)
+         (shared_candidates_all exports path).
+End Serving.
